@@ -165,3 +165,306 @@ def get_driver(ctx):
         ctx.tie_broken("extraction-th", log)
         return None
     return Driver(exe)
+
+
+# ---------------------------------------------------------------------------------------------
+# sorts (to tell arithmetic equalities from uninterpreted ones)
+# ---------------------------------------------------------------------------------------------
+
+class SortEnv:
+    """return sorts of the declared symbols of a generated script (+ the variables listed in an event)"""
+
+    def __init__(self, script_text):
+        self.ret = {}
+        for cmd in T.parse_all(script_text):
+            if isinstance(cmd, list) and cmd and cmd[0] in ("declare-fun", "define-fun") and len(cmd) >= 4:
+                self.ret[T.show(cmd[1])] = T.show(cmd[3])
+            elif isinstance(cmd, list) and cmd and cmd[0] == "declare-const" and len(cmd) >= 3:
+                self.ret[T.show(cmd[1])] = T.show(cmd[2])
+
+    def sort_of(self, t, evvars):
+        if T.const_value(t) is not None:
+            return "Num"
+        if isinstance(t, str):
+            if t in ("true", "false"):
+                return "Bool"
+            return evvars.get(t) or self.ret.get(t)
+        h = t[0]
+        if h in ("+", "-", "*", "/"):
+            return "Num"
+        if h == "select":
+            s = self.sort_of(t[1], evvars)
+            if s:
+                e = T.parse_one(s)
+                if isinstance(e, list) and len(e) == 3 and e[0] == "Array":
+                    return T.show(e[2])
+            return None
+        if h == "store":
+            return self.sort_of(t[1], evvars)
+        if h == "ite":
+            return self.sort_of(t[2], evvars)
+        if h in ("=", "distinct", "<=", "<", ">=", ">", "not", "and", "or"):
+            return "Bool"
+        if isinstance(h, str):
+            return self.ret.get(h)
+        return None
+
+    def is_num(self, t, evvars):
+        return self.sort_of(t, evvars) in ("Num", "Int", "Real")
+
+
+# ---------------------------------------------------------------------------------------------
+# EUF clauses -> term DAG
+# ---------------------------------------------------------------------------------------------
+
+class Unsupported(Exception):
+    pass
+
+
+def encode_euf(lits, arrays=False):
+    """lits: list of (atom, pol) of a clause.  Returns the E-query line (CC.euf_clause_check); with arrays=True the
+    A-query line (CC.arr_clause_check) over a DAG that also contains select(s, j), select(a, j) for every store term
+    s = store(a, i, e) and every index term j of the clause (extra nodes are harmless: they only have to be consistent).
+    Boolean atoms P are read two-valued:  the clause literal P is false iff P = false,  (not P) iff P = true."""
+    nodes, index, syms = [], {}, {}
+
+    def sym(name):
+        return syms.setdefault(name, len(syms) + 1)
+
+    dcs = []
+
+    def node(t):
+        cv = T.const_value(t)
+        key = ("#", cv) if cv is not None else T.show(t)
+        if key in index:
+            return index[key]
+        if cv is not None:
+            f, ch = sym("#%s" % cv), []
+        elif isinstance(t, str):
+            f, ch = sym(t), []
+        else:
+            if not isinstance(t[0], str):
+                raise Unsupported("head " + T.show(t))
+            ch = [node(x) for x in t[1:]]
+            f = sym("%s/%d" % (t[0], len(ch)))
+        i = len(nodes)
+        nodes.append((f, ch))
+        index[key] = i
+        if cv is not None or key in ("true", "false"):
+            dcs.append(i)
+        return i
+
+    TRUE, FALSE = node("true"), node("false")
+    cl = []
+    for atom, pol in lits:
+        if not isinstance(atom, str) and atom[0] == "=" and len(atom) == 3:
+            cl.append((node(atom[1]), node(atom[2]), pol))
+        elif not isinstance(atom, str) and atom[0] == "distinct":
+            args = [node(x) for x in atom[1:]]
+            if pol and len(args) == 2:
+                cl.append((args[0], args[1], False))
+            elif not pol:
+                for i in range(len(args)):
+                    for j in range(i + 1, len(args)):
+                        cl.append((args[i], args[j], True))
+            else:
+                raise Unsupported("positive distinct with %d arguments" % len(args))
+        else:
+            n = node(atom)
+            cl.append((n, FALSE if pol else TRUE, False))
+    head = ["E"]
+    if arrays:
+        stores, idxs = [], []
+        for key, i in list(index.items()):
+            pass
+        def walk(t):
+            if isinstance(t, str) or T.const_value(t) is not None:
+                return
+            if t[0] == "store" and len(t) == 4:
+                stores.append(t)
+                idxs.append(t[2])
+            if t[0] == "select" and len(t) == 3:
+                idxs.append(t[2])
+            for x in t[1:]:
+                walk(x)
+        for atom, _ in lits:
+            walk(atom)
+        seen_i = []
+        for j in idxs:
+            if T.show(j) not in [T.show(x) for x in seen_i]:
+                seen_i.append(j)
+        for st in stores:
+            for j in seen_i:
+                if len(nodes) > 400:
+                    break
+                node(["select", st, j])
+                node(["select", st[1], j])
+        head = ["A", str(sym("select/2")), str(sym("store/3"))]
+    parts = head + [str(len(nodes))]
+    for f, ch in nodes:
+        parts += [str(f), str(len(ch))] + [str(c) for c in ch]
+    parts.append(str(len(cl)))
+    for a, b, p in cl:
+        parts += [str(a), str(b), "1" if p else "0"]
+    parts.append(str(len(dcs)))
+    parts += [str(d) for d in dcs]
+    return " ".join(parts)
+
+
+# ---------------------------------------------------------------------------------------------
+# LA clauses, possibly with equality atoms / without coefficients  (ThClause.mixed_clause_check)
+# ---------------------------------------------------------------------------------------------
+
+def encode_mixed(isint, lits, env=None, evvars=None):
+    """lits: list of (atom, pol) of a clause.  Finds coefficients with the untrusted LP and returns the M-query
+    line, or raises Unsupported (an atom that is not arithmetic) / returns None when the LP finds no certificate."""
+    gl = []     # (kind, s, c, pol)
+    for atom, pol in lits:
+        sc = leq_atom(atom)
+        if sc is not None:
+            gl.append(("L", sc[0], sc[1], pol))
+            continue
+        sc = eq_atom(atom)
+        if sc is not None and (env is None or env.is_num(atom[1], evvars) or env.is_num(atom[2], evvars)):
+            gl.append(("E", sc[0], sc[1], pol))
+            continue
+        raise Unsupported("not an arithmetic atom: " + T.show(atom))
+    pos_eq = [i for i, g in enumerate(gl) if g[0] == "E" and g[3]]
+    cands = [None] + pos_eq
+
+    def negc(g):
+        kind, s, c, pol = g
+        if kind == "L":
+            return lit_constraint(isint, s, c, not pol)
+        return (dict(s), "eq", c)
+
+    for d in cands:
+        rest = [g for i, g in enumerate(gl) if i != d]
+        usable = [i for i, g in enumerate(rest) if not (g[0] == "E" and g[3])]
+        base = [negc(rest[i]) for i in usable]
+        if d is None:
+            lam = thlp.farkas(base) if base else None
+            if lam is None:
+                continue
+            ks1 = [Fraction(0)] * len(rest)
+            for i, l in zip(usable, lam):
+                ks1[i] = l
+            return _mixed_line(isint, None, rest, Fraction(0), ks1, Fraction(0), [Fraction(0)] * len(rest))
+        _, s, c, _ = gl[d]
+        side1 = [lit_constraint(isint, s, c, False)] + base
+        side2 = [lit_constraint(isint, T.lin_scale(s, -1), -c, False)] + base
+        l1, l2 = thlp.farkas(side1), thlp.farkas(side2)
+        if l1 is None or l2 is None or l1[0] == 0 or l2[0] == 0:
+            continue
+        ks1 = [Fraction(0)] * len(rest)
+        ks2 = [Fraction(0)] * len(rest)
+        for i, a, b in zip(usable, l1[1:], l2[1:]):
+            ks1[i], ks2[i] = a, b
+        return _mixed_line(isint, (s, c), rest, l1[0], ks1, l2[0], ks2)
+    return None
+
+
+def _mixed_line(isint, d, rest, kd1, ks1, kd2, ks2):
+    ids = {}
+
+    def lin(s):
+        out = [str(len(s))]
+        for v in sorted(s):
+            out += [str(ids.setdefault(v, len(ids) + 1)), q(s[v])]
+        return out
+    parts = ["M", "1" if isint else "0"]
+    if d is None:
+        parts.append("0")
+    else:
+        parts += ["1", q(d[1]), q(kd1), q(kd2)] + lin(d[0])
+    parts.append(str(len(rest)))
+    for (kind, s, c, pol), k1, k2 in zip(rest, ks1, ks2):
+        parts += [kind, "1" if pol else "0", q(c), q(k1), q(k2)] + lin(s)
+    return " ".join(parts)
+
+
+def encode_la_clause_with_coeffs(isint, ev):
+    """theory clause that comes with an (la ...) event: K-query (all literals used, coefficients as given)"""
+    lits = la_event_lits(ev.la)
+    if lits is None:
+        return None
+    return encode_la("K", isint, [(s, c, not pol, k) for s, c, pol, k in lits])
+
+
+# ---------------------------------------------------------------------------------------------
+# reference solvers on the negation of a rejected clause (search only)
+# ---------------------------------------------------------------------------------------------
+
+def oracle_negation(script_text, ev, timeout=10):
+    """Is the conjunction of the negated literals satisfiable?  Returns (verdict, detail) with verdict in
+    'sat' (some oracle has a model: the clause is not valid), 'unsat' (both agree it is valid), 'unknown'."""
+    decls = declarations_of(script_text)
+    declared = set()
+    for d in decls:
+        e = T.parse_one(d)
+        declared.add(T.show(e[1]))
+    def ren(e):
+        # auxiliary variables of the solver (.purify_N, .ite_N ...): symbols starting with '.' are reserved
+        if isinstance(e, str):
+            return "aux_" + e[1:] if e.startswith(".") else e
+        return [ren(x) for x in e]
+    extra = ["(declare-fun %s () %s)" % (ren(v), s) for v, s in ev.vars if v not in declared]
+    body = []
+    for t in ev.terms:
+        a, pol = T.split_literal(t)
+        a = ren(a)
+        body.append("(assert %s)" % (("(not %s)" % T.show(a)) if pol else T.show(a)))
+    text = "\n".join(["(set-logic ALL)"] + decls + extra + body + ["(check-sat)", "(get-model)"]) + "\n"
+    res = {}
+    for solver in ("z3", "cvc5"):
+        rc, out = vlib.run_ref(solver, text, timeout=timeout)
+        first = out.strip().split("\n")[0].strip() if out.strip() else ""
+        res[solver] = (first, out[:1500])
+    firsts = [res[s][0] for s in res]
+    if "sat" in firsts:
+        s = [k for k in res if res[k][0] == "sat"][0]
+        return "sat", dict(solver=s, model=res[s][1], query=text, answers=firsts)
+    if all(f == "unsat" for f in firsts):
+        return "unsat", dict(query=text, answers=firsts)
+    return "unknown", dict(query=text, answers=firsts, raw={k: v[1][:300] for k, v in res.items()})
+
+
+def confirm_la_model(ev, model_text):
+    """Exact evaluation (python fractions) of the negated clause under a model printed by a reference solver; only
+    for clauses whose atoms are linear arithmetic over variables.  Returns True (all negated literals hold: the
+    clause is false under the model), False, or None (not applicable)."""
+    try:
+        i = model_text.find("(")
+        m = T.parse_one(model_text[i:]) if i >= 0 else None
+    except T.ParseError:
+        return None
+    if not isinstance(m, list):
+        return None
+    val = {}
+    for d in m:
+        if isinstance(d, list) and len(d) == 5 and d[0] == "define-fun" and d[2] == []:
+            v = T.const_value(d[4])
+            if v is not None:
+                name = T.show(d[1])
+                val[name] = v
+                if name.startswith("aux_"):
+                    val["." + name[4:]] = v
+    for t in ev.terms:
+        atom, pol = T.split_literal(t)
+        sc = leq_atom(atom)
+        kind = "le"
+        if sc is None:
+            sc = eq_atom(atom)
+            kind = "eq"
+        if sc is None:
+            return None
+        s_, c = sc
+        tot = Fraction(0)
+        for v, k in s_.items():
+            if v not in val:
+                return None
+            tot += k * val[v]
+        truth = (c <= tot) if kind == "le" else (tot == c)
+        if truth == pol:        # the clause literal is true under the model: not a counter-model
+            return False
+    return True
